@@ -1042,10 +1042,14 @@ def install_builtins(reg: Registry):
 
     @H("all")
     def h_all(i, a, k, n):
+        if a and isinstance(a[0], Arr) and a[0].elem == "bool" and "lit" not in a[0].meta:
+            return B(z3.Const(f"all<{a[0].key}>", BS))           # builtin all() over a Boolean array of symbolic length: same abstraction as xp.all
         return B(z3.And([i.truth(x, n) for x in i.iterate(a[0], n)] + [z3.BoolVal(True)]))
 
     @H("any")
     def h_any(i, a, k, n):
+        if a and isinstance(a[0], Arr) and a[0].elem == "bool" and "lit" not in a[0].meta:
+            return B(z3.Const(f"any<{a[0].key}>", BS))
         return B(z3.Or([i.truth(x, n) for x in i.iterate(a[0], n)] + [z3.BoolVal(False)]))
 
     @H("tuple")
